@@ -209,6 +209,8 @@ async def run_client_case(case):
         from chuk_mcp.transports.stdio.stdio_client import StdioClient
         from chuk_mcp.transports.stdio.parameters import StdioParameters
         client = StdioClient(StdioParameters(command="never-spawned", args=[]))
+        if case.get("prior_version") is not None:
+            client.set_protocol_version(case["prior_version"])      # what an earlier handshake of this client left behind
     async with anyio.create_task_group() as tg:
         tg.start_soon(peer)
         try:
